@@ -740,6 +740,7 @@ func (vc *VC) assign(s *State, lhs ast.Expr, v *Term) {
 
 func (vc *VC) setVar(s *State, o *types.Var, v *Term) {
 	if o.Pkg() != nil && o.Parent() == o.Pkg().Scope() {
+		vc.writeAllowed(s, vc.globalName(o), nil)
 		s.heap[vc.globalName(o)] = v
 		vc.heapSorts[vc.globalName(o)] = sortOf(o.Type())
 		return
